@@ -645,6 +645,19 @@ func sliceLengthsCompared(c *Ctx, r *Report, rule string) {
 			n++
 			found := false
 			allInstrs(fn, func(in ssa.Instruction) {
+				// slices.Equal(r1.F, r2.F) compares the lengths first
+				if call, isCall := in.(*ssa.Call); isCall && strings.HasPrefix(calleeNameSSA(&call.Call), "slices.Equal") && len(call.Call.Args) == 2 {
+					isF := func(v ssa.Value) bool {
+						return anyIn(sliceOf(v), func(x ssa.Value) bool {
+							fa, ok := x.(*ssa.FieldAddr)
+							return ok && fieldNameOf(fa) == f.Name
+						})
+					}
+					if isF(call.Call.Args[0]) && isF(call.Call.Args[1]) {
+						found = true
+					}
+					return
+				}
 				bin, ok := in.(*ssa.BinOp)
 				if !ok || (bin.Op != token.NEQ && bin.Op != token.EQL) {
 					return
